@@ -3,9 +3,10 @@
 //! carry DIFFERENT result metadata: every row handed to the caller must come from a page whose own columns the
 //! target type fits; a page that does not fit must give a type-check error before any of its rows.
 //!
-//! Case: `pager <target> <ext 0|1> <skip 0|1> | <prepared cols> | <page> | <page> | ...`
+//! Case: `pager <target> <ext 0|1> <skip 0|1> <stop|all> | <prepared cols> | <page> | <page> | ...`
+//!   consumer `stop`: stops at the first error item; `all`: keeps polling THROUGH error items to the end of the stream
 //!   cols ::= n (<name> <type>)…      page ::= <rows> nometa | <rows> <newid 0|1> cols
-//! Output: `ctor:TypeCheck` | `rows=<delivered> fin=end|TypeCheck|err:<label>`
+//! Output: `ctor:TypeCheck` | stop: `rows=<delivered> fin=end|TypeCheck|err:<label>` | all: `seq=<run lengths: r2e3r1> fin=end|err:<label>`
 use crate::mocknode::*;
 use crate::Ctx;
 use futures::StreamExt;
@@ -41,6 +42,8 @@ pub struct PCase {
     pub target: String,
     pub ext: bool,
     pub skip: bool,
+    /// keep polling after error items
+    pub poll_all: bool,
     pub prepared: Vec<PCol>,
     pub pages: Vec<PPage>,
 }
@@ -65,7 +68,7 @@ pub fn cols_str(cs: &[PCol]) -> String {
 pub fn parse_case(line: &str) -> Option<PCase> {
     let segs: Vec<&str> = line.split(" | ").map(|s| s.trim()).collect();
     let hd: Vec<&str> = segs.first()?.split_whitespace().collect();
-    if hd.len() != 4 || hd[0] != "pager" || segs.len() < 3 {
+    if hd.len() != 5 || hd[0] != "pager" || segs.len() < 3 || !(hd[4] == "stop" || hd[4] == "all") {
         return None;
     }
     let prepared = parse_cols(&segs[1].split_whitespace().collect::<Vec<_>>())?;
@@ -84,7 +87,7 @@ pub fn parse_case(line: &str) -> Option<PCase> {
             pages.push(PPage { rows, cols: Some(parse_cols(&t[2..])?), new_id });
         }
     }
-    Some(PCase { target: hd[1].to_owned(), ext: hd[2] == "1", skip: hd[3] == "1", prepared, pages })
+    Some(PCase { target: hd[1].to_owned(), ext: hd[2] == "1", skip: hd[3] == "1", poll_all: hd[4] == "all", prepared, pages })
 }
 
 /// the value the server puts into column `i` of global row `g`
@@ -302,6 +305,7 @@ pub fn target_fits(target: &str, cols: &[PCol]) -> Option<bool> {
 
 enum Decoded {
     Vals(Vec<(String, CqlValue)>), // (column name or index, value) as the caller received them
+    TypeErr,                        // a type-check error item (only with the poll-to-end consumer)
 }
 
 fn label(e: &NextRowError) -> String {
@@ -316,13 +320,17 @@ fn label(e: &NextRowError) -> String {
 }
 
 macro_rules! drive {
-    ($pager:expr, $t:ty, $conv:expr) => {{
+    ($pager:expr, $t:ty, $conv:expr, $poll_all:expr, $max:expr) => {{
         match $pager.rows_stream::<$t>() {
             Err(_) => (Vec::new(), "ctor:TypeCheck".to_owned()),
             Ok(mut stream) => {
                 let mut out: Vec<Decoded> = Vec::new();
                 let fin;
                 loop {
+                    if out.len() > $max {
+                        fin = "err:runaway".to_owned();
+                        break;
+                    }
                     match stream.next().await {
                         None => {
                             fin = "end".to_owned();
@@ -330,8 +338,13 @@ macro_rules! drive {
                         }
                         Some(Ok(r)) => out.push(Decoded::Vals($conv(r))),
                         Some(Err(e)) => {
-                            fin = label(&e);
-                            break;
+                            let l = label(&e);
+                            if $poll_all && l == "TypeCheck" {
+                                out.push(Decoded::TypeErr); // keep polling: the stream is not fused by a type-check error
+                            } else {
+                                fin = l;
+                                break;
+                            }
                         }
                     }
                 }
@@ -428,12 +441,14 @@ async fn run_case(case: &PCase, ctx: &mut Ctx) -> String {
         }
     };
     let idx = |i: usize| i.to_string();
+    let poll_all = case.poll_all;
+    let max_items: usize = case.pages.iter().map(|p| p.rows).sum::<usize>() + 8;
     let (out, fin): (Vec<Decoded>, String) = match target.as_str() {
-        "t_i32_i64" => drive!(pager, (i32, i64), |r: (i32, i64)| vec![(idx(0), CqlValue::Int(r.0)), (idx(1), CqlValue::BigInt(r.1))]),
-        "t_i32_str" => drive!(pager, (i32, String), |r: (i32, String)| vec![(idx(0), CqlValue::Int(r.0)), (idx(1), CqlValue::Text(r.1))]),
-        "t_i32" => drive!(pager, (i32,), |r: (i32,)| vec![(idx(0), CqlValue::Int(r.0))]),
-        "s_pk_v" => drive!(pager, PkV, |r: PkV| vec![("pk".to_owned(), CqlValue::Int(r.pk)), ("v".to_owned(), CqlValue::BigInt(r.v))]),
-        "row" => drive!(pager, Row, |r: Row| r.columns.into_iter().enumerate().map(|(i, c)| (idx(i), c.unwrap_or(CqlValue::Empty))).collect::<Vec<_>>()),
+        "t_i32_i64" => drive!(pager, (i32, i64), |r: (i32, i64)| vec![(idx(0), CqlValue::Int(r.0)), (idx(1), CqlValue::BigInt(r.1))], poll_all, max_items),
+        "t_i32_str" => drive!(pager, (i32, String), |r: (i32, String)| vec![(idx(0), CqlValue::Int(r.0)), (idx(1), CqlValue::Text(r.1))], poll_all, max_items),
+        "t_i32" => drive!(pager, (i32,), |r: (i32,)| vec![(idx(0), CqlValue::Int(r.0))], poll_all, max_items),
+        "s_pk_v" => drive!(pager, PkV, |r: PkV| vec![("pk".to_owned(), CqlValue::Int(r.pk)), ("v".to_owned(), CqlValue::BigInt(r.v))], poll_all, max_items),
+        "row" => drive!(pager, Row, |r: Row| r.columns.into_iter().enumerate().map(|(i, c)| (idx(i), c.unwrap_or(CqlValue::Empty))).collect::<Vec<_>>(), poll_all, max_items),
         _ => {
             put_back(env);
             return "bad-case".to_owned();
@@ -450,12 +465,22 @@ async fn run_case(case: &PCase, ctx: &mut Ctx) -> String {
         }
     }
     let total = page_of.len();
-    for (k, Decoded::Vals(vals)) in out.iter().enumerate() {
+    for (k, item) in out.iter().enumerate() {
         let Some(&pi) = page_of.get(k) else {
             ctx.fail(format!("row {} delivered but the server sent only {} rows", k, total));
             break;
         };
         let cols = eff(pi);
+        let vals = match item {
+            Decoded::Vals(v) => v,
+            Decoded::TypeErr => {
+                // every item stands for one row (a refused row is consumed): the page it belongs to must not fit
+                if target_fits(&target, &cols) == Some(true) {
+                    ctx.fail(format!("docs: row {} of page {} (columns `{}`) fits {} but was refused with a type-check error", k, pi, cols_str(&cols), target));
+                }
+                continue;
+            }
+        };
         if target_fits(&target, &cols) != Some(true) {
             ctx.fail(format!(
                 "reinterpretation: row {} of page {} (columns `{}`) was decoded as {} = {:?} although the page's own columns do not fit that type",
@@ -498,7 +523,24 @@ async fn run_case(case: &PCase, ctx: &mut Ctx) -> String {
         }
         other => ctx.fail(format!("unexpected end of the typed stream: {}", other)),
     }
-    if fin == "ctor:TypeCheck" { fin } else { format!("rows={} fin={}", out.len(), fin) }
+    if fin == "ctor:TypeCheck" {
+        fin
+    } else if case.poll_all {
+        let mut rle = String::new();
+        let mut i = 0;
+        while i < out.len() {
+            let is_row = matches!(out[i], Decoded::Vals(_));
+            let mut j = i;
+            while j < out.len() && matches!(out[j], Decoded::Vals(_)) == is_row {
+                j += 1;
+            }
+            rle.push_str(&format!("{}{}", if is_row { "r" } else { "e" }, j - i));
+            i = j;
+        }
+        format!("seq={} fin={}", if rle.is_empty() { "-" } else { &rle }, fin)
+    } else {
+        format!("rows={} fin={}", out.len(), fin)
+    }
 }
 
 pub fn run(line: &str, ctx: &mut Ctx) -> String {
